@@ -1,10 +1,11 @@
 package prune
 
 import (
+	"encoding/hex"
 	"fmt"
 	"os"
-	"syscall"
 	"sort"
+	"syscall"
 
 	"github.com/0chain/common/core/util"
 
@@ -82,5 +83,30 @@ func profStop() {
 	sort.Strings(ks)
 	for _, k := range ks {
 		fmt.Fprintf(os.Stderr, "SECT %-20s %8.1f ms\n", k, float64(sect[k])/1000)
+	}
+}
+
+var watchState = map[string]bool{}
+
+// watch reports (stderr) when a node key appears on / disappears from the follower's disk.
+func (f *follower) watch(where string) {
+	hx := os.Getenv("VERIF_WATCH")
+	if hx == "" {
+		return
+	}
+	key, err := hex.DecodeString(hx)
+	if err != nil {
+		return
+	}
+	for r, set := range deadRecordSets(f.rp.Disk) {
+		if set[hx] && !watchState[fmt.Sprintf("%s@%d", hx, r)] {
+			watchState[fmt.Sprintf("%s@%d", hx, r)] = true
+			fmt.Fprintf(os.Stderr, "WATCH %s listed in dead record %d at %s (event %d)\n", hx[:12], r, where, f.tr.N())
+		}
+	}
+	_, on := f.rp.Disk.Snapshot("default")[string(key)]
+	if on != watchState[hx] {
+		watchState[hx] = on
+		fmt.Fprintf(os.Stderr, "WATCH %s present=%v at %s (event %d)\n", hx[:12], on, where, f.tr.N())
 	}
 }
